@@ -123,6 +123,40 @@ theorem response_coding_declared (r : Registry) (sup : List Str) (chunk : Nat) (
   have := sent_coding_negotiated r _ sup chunk body h wire c he hc
   exact ⟨this.2, mem_parseHeader _ c this.1⟩
 
+/-- histories with configuration changes (`set_used_compression` after start): every response is coded only with a coding
+    that is enabled *at that time* and that the header of *that* request declares with a weight > 0 -/
+theorem history_choice_sound (cfg : List Str) (ops : List CfgOp) :
+    ∀ e ∈ cfgRun cfg ops, ∀ c, e.2.2 = some c → c ∈ e.1 ∧ ∃ q, weightOf (e.2.1.getD []) c = some q ∧ q.pos = true := by
+  induction ops generalizing cfg with
+  | nil => intro e he; cases he
+  | cons op ops ih =>
+    cases op with
+    | setUsed ns => exact ih ns
+    | request ae =>
+      intro e he c hc
+      simp only [cfgRun, List.mem_cons] at he
+      rcases he with he | he
+      · subst he; exact choice_sound _ _ c hc
+      · exact ih cfg e he c hc
+
+/-- a changed configuration takes effect with the next response: what was enabled before does not matter -/
+theorem config_change_effective (cfg ns : List Str) (ops : List CfgOp) : cfgRun cfg (.setUsed ns :: ops) = cfgRun ns ops := rfl
+
+/-- compression switched off: no response is coded until it is switched on again -/
+theorem disabled_never_coded (cfg : List Str) (aes : List (Option Str)) :
+    ∀ e ∈ cfgRun cfg (.setUsed [] :: aes.map .request), e.2.2 = none := by
+  have h : ∀ aes : List (Option Str), ∀ e ∈ cfgRun [] (aes.map .request), e.2.2 = none := by
+    intro aes
+    induction aes with
+    | nil => intro e he; cases he
+    | cons a r ih =>
+      intro e he
+      simp only [List.map_cons, cfgRun, List.mem_cons] at he
+      rcases he with he | he
+      · subst he; simp [choose]
+      · exact ih e he
+  exact h aes
+
 /-! ### content coding -/
 
 /-- **request path**: what `SoapClient._send_soap_request` puts on the wire is read back by
@@ -216,6 +250,12 @@ theorem decoded_only_by_declared (w : Nat) (r : Registry) (sup : List Str) (h : 
   obtain ⟨hc, codec, payload, y, _, hg, hy, hb⟩ := decodeBody_ok r sup h body b enc hd he hne
   exact ⟨hc, codec, payload, y, hg, hy, hb⟩
 
+/-- a negative Content-Length is rejected before anything is read (the pinned tree called `rfile.read(-1)`: read until the peer closes) -/
+theorem negative_length_rejected (w : Nat) (r : Registry) (sup : List Str) (h : Hdrs) (wire : Bytes) (n : Int)
+    (hc : h.isChunked = false) (hl : h.contentLength = some (.val n)) (hn : n < 0) :
+    readRequestBody w r sup h wire = .error .value := by
+  simp [readRequestBody, hc, hl, hn]
+
 /-- a request in a coding that is not enabled is rejected: no body is returned -/
 theorem unsupported_rejected (w : Nat) (r : Registry) (sup : List Str) (h : Hdrs) (wire : Bytes) (enc : Str)
     (he : h.contentEncoding = some enc) (hne : enc ≠ []) (hu : (r.effective sup).contains enc = false) :
@@ -238,7 +278,7 @@ theorem corrupt_rejected (w : Nat) (r : Registry) (sup : List Str) (h : Hdrs) (w
     (codec : Codec) (he : h.contentEncoding = some enc) (hne : enc ≠ []) (hen : (r.effective sup).contains enc = true)
     (hg : r.getHandler enc = .ok codec)
     (hframe : (h.isChunked = true ∧ dechunk w wire = .ok (payload, rest)) ∨
-              (h.isChunked = false ∧ h.contentLength = some (.val n) ∧ payload = pyRead wire n))
+              (h.isChunked = false ∧ h.contentLength = some (.val n) ∧ 0 ≤ n ∧ payload = pyRead wire n))
     (hbad : codec.dec payload = none) :
     readRequestBody w r sup h wire = .error .codec := by
   have hemp : enc.isEmpty = false := by cases enc with | nil => exact absurd rfl hne | cons a l => rfl
@@ -246,9 +286,11 @@ theorem corrupt_rejected (w : Nat) (r : Registry) (sup : List Str) (h : Hdrs) (w
     have hmem : enc ∈ r.effective sup := by simpa using hen
     simp [decodeBody, he, hemp, hmem, Registry.decompress, hg, hbad]
   unfold readRequestBody
-  rcases hframe with ⟨h1, h2⟩ | ⟨h1, h2, h3⟩
+  rcases hframe with ⟨h1, h2⟩ | ⟨h1, h2, hn, h3⟩
   · simp only [h1, if_true, h2]; exact hd
-  · subst h3; simp only [h1, Bool.false_eq_true, if_false, h2]; exact hd
+  · subst h3
+    have hn' : ¬ n < 0 := by omega
+    simp only [h1, Bool.false_eq_true, if_false, h2, hn']; exact hd
 
 /-- the response reader applies the same rule -/
 theorem response_decoded_only_by_declared (r : Registry) (sup : List Str) (h : Hdrs) (payload : Bytes) (b : Option Bytes)
@@ -310,5 +352,12 @@ example : ∃ h wire, sendRequest toyRegistry [[103, 122, 105, 112]] [[103, 122,
     h.contentEncoding = some [103, 122, 105, 112] ∧ readRequestBody 16 toyRegistry [] h wire = .ok (some [1, 2, 3]) := by
   refine ⟨_, _, rfl, rfl, ?_⟩
   decide
+
+/-- all codings, then only gzip, then none; the peer keeps asking for `x-lz4, gzip;q=0.5` -/
+example : (cfgRun [[103, 122, 105, 112], [120, 45, 108, 122, 52]]
+      [.request (some [120, 45, 108, 122, 52, 44, 32, 103, 122, 105, 112, 59, 113, 61, 48, 46, 53]), .setUsed [[103, 122, 105, 112]],
+       .request (some [120, 45, 108, 122, 52, 44, 32, 103, 122, 105, 112, 59, 113, 61, 48, 46, 53]), .setUsed [],
+       .request (some [120, 45, 108, 122, 52, 44, 32, 103, 122, 105, 112, 59, 113, 61, 48, 46, 53])]).map (·.2.2)
+    = [some [120, 45, 108, 122, 52], some [103, 122, 105, 112], none] := by decide
 
 end Sdc.C17
